@@ -59,6 +59,17 @@ pub fn programs(tier: Tier) -> ProgramSet {
             out.push(Program { idx: 0, label: format!("{} [custom error type mentioning T]", e.label), k: e.k + 1, spec, aux: json!({"generic_err": true}), source });
         }
     }
+    for (spec0, label) in scale_specs() {
+        if !parse_domain(&spec0) {
+            continue;
+        }
+        for custom in [true, false] {
+            let mut spec = spec0.clone();
+            spec.parse_err = custom;
+            let source = render(&spec);
+            out.push(Program { idx: 0, label: format!("{} [{}]", label, if custom { "custom error" } else { "standard error" }), k: 1, spec, aux: json!(null), source });
+        }
+    }
     let mut exm = std::collections::BTreeMap::new();
     exm.insert("overlapping spellings".to_string(), ex as u64);
     ProgramSet { programs: finish(out), excluded: exm, bounds: json!({"N": 3, "k_max": 2, "twins": ["custom error", "standard error"]}) }
